@@ -255,6 +255,8 @@ def _process_path(E, z3, h, param, pidx, kind, prop, exc, info, res, known, nati
         for e in extra:
             E.solver.add(e)
         r = E.solver.check()
+        if r == z3.unknown:
+            r = E._retry_unknown()
         E.nq += 1
         m = E.solver.model() if r == z3.sat else None
         E.solver.pop()
